@@ -205,6 +205,8 @@ def case_st(draw):
     n = draw(st.sampled_from([0, 1, 2, 3, k - 1, k, k + 1, 2 * k - 1, 2 * k, 2 * k + 1, 3 * k, 3 * k + 2, 25]) | st.integers(0, 40))
     frac = draw(st.sampled_from([0, 0, 0.25, 0.5, 0.999]))
     mtime = T0 + draw(st.integers(0, 10**8)) + frac
+    if draw(st.integers(0, 7)) == 0:
+        mtime = draw(st.sampled_from([0, 0.5, 1, 1.999, 86400, 2**31 - 1, 2**31, 946684800]))      # boundary times: the epoch itself, the 32-bit edge
     case = {'n': n, 'buf': buf, 'mtime': mtime}
     if draw(st.integers(0, 9)) < 7:
         case['range'] = draw(range_st(n))
@@ -213,7 +215,7 @@ def case_st(draw):
         if kind == 'junk':
             case['ims'] = {'kind': 'junk', 'text': draw(st.sampled_from(['yesterday', '0', 'Mon, 99 Foo 2001 00:00:00 GMT', ';', '1000000000', '-1']))}
         else:
-            ep = int(mtime) + {'before': -draw(st.integers(2, 10**6)), 'before1': -1, 'equal': 0, 'after1': 1, 'after': draw(st.integers(2, 10**6))}[kind]
+            ep = max(0, int(mtime) + {'before': -draw(st.integers(2, 10**6)), 'before1': -1, 'equal': 0, 'after1': 1, 'after': draw(st.integers(2, 10**6))}[kind])
             style = draw(st.sampled_from(['rfc1123', 'rfc1123', 'rfc850', 'asctime', 'length']))
             case['ims'] = {'kind': kind, 'epoch': ep, 'text': fmt_date(ep, style), 'style': style}
     return case
@@ -285,6 +287,9 @@ def run(ctx):
                         ep = T0 + 77 + d
                         ctx.guarded(check_case, {'n': 5, 'buf': 8, 'mtime': T0 + 77 + frac,
                                                  'ims': {'kind': 'grid', 'epoch': ep, 'text': fmt_date(ep, style), 'style': style}})
+            for mt in (0, 0.5, 1, 86400):
+                for ep in (0, 1, 2, 86400, 86401):
+                    ctx.guarded(check_case, {'n': 3, 'buf': 8, 'mtime': mt, 'ims': {'kind': 'grid', 'epoch': ep, 'text': fmt_date(ep, 'rfc1123'), 'style': 'rfc1123'}})
             ctx.count('small_scope_grid')
         n = 2500 if ctx.tier == 'quick' else 25000
         ctx.hyp(case_st(), check_case, n)
